@@ -307,6 +307,13 @@ pub struct Verdict {
 
 /// Judge one input. `tag` names the generator class for the evidence.
 pub fn judge(ctx: &mut Ctx, input: &[u8], tag: &str) -> &'static str {
+    judge_with(ctx, input, tag, None)
+}
+
+/// `origin`: the well-formed message `input` was derived from by a corruption. The acceptor tree used for an input the
+/// reference rejects then also defines every header of the original, so that a corruption the library silently removes or
+/// skips (and thereby executes the original) cannot hide behind "undefined header".
+pub fn judge_with(ctx: &mut Ctx, input: &[u8], tag: &str, origin: Option<&[u8]>) -> &'static str {
     bump(ctx, 1);
     let lx = lex_message(input);
     // White space before the first header is consumed by `Node::run` (the unit of observation for
@@ -518,7 +525,15 @@ pub fn judge(ctx: &mut Ctx, input: &[u8], tag: &str) -> &'static str {
         Lex::Reject(reason, at) => {
             ctx.count(&format!("{}.ref.reject", tag));
             ctx.count(&format!("reject.{}", reason));
-            let hs = headers_of_lib(input, &els);
+            let mut hs = headers_of_lib(input, &els);
+            if let Some(o) = origin {
+                let (oels, _, _, _) = lib_elements(o);
+                for h in headers_of_lib(o, &oels) {
+                    if !hs.contains(&h) {
+                        hs.push(h);
+                    }
+                }
+            }
             let tree = tree_for(&hs);
             let mut dev = Dev::new();
             let mut c = Context::default();
@@ -793,7 +808,7 @@ pub fn run(cfg: &Cfg, rep: &mut Report) {
     run_cases(cfg, "corrupted", n, rep, |rng, ctx| {
         let (m, _) = gen_message(rng);
         let (c, op) = corrupt(rng, &m);
-        let v = judge(ctx, &c, "corrupted");
+        let v = judge_with(ctx, &c, "corrupted", Some(&m));
         ctx.count(&format!("corruption.{}.{}", op, v));
         if v == "reject" {
             ctx.nontrivial(hash_bytes(&c));
